@@ -74,8 +74,8 @@ CHECKS = {
          "Decides that the warnings the generator's source produces on a catalogue covering every operator on the left edge, nullable prefixes, indirect/unreachable cycles, stubs, unused chains and duplicate definitions are exactly the oracle's sets, that duplicates are diagnosed rather than crashing, and that Strict turns any warning into a returned error before anything is written. Exactness beyond the catalogue follows from the walkers being structural (one case per operator).",
          "DESIGN.md §4 C15",
          "Trusts the interpreter and the oracle in c15.go; the CLI half is C18; builder calls as in peg.peg (C10)."),
- "C10": ("independent .peg reader + builder stack-effect type system over peg.peg (builder summaries obtained by evaluating each Add* method's source on a marked tree; least-fixpoint typing of the grammar), escape-table decoding, exhaustive evaluation of the octal decoder over its capture patterns, grammar-graph reachability rules for quoting, classes, precedence and operator routing",
-         "Decides structural conditions on the self-hosted grammar and its builder: every rule has one net stack effect and never underflows (so every primary pushes exactly one node for every grammar text), escapes denote the documented code points, quoting/class forms reach the right builders, operator punctuation routes to its builder, precedence is stratified, both comment/arrow spellings exist, the start rule demands end of input. Partial: that each construct behaves as documented once built is C01's subject; whitespace spellings are not enumerated.",
+ "C10": ("independent .peg reader + builder stack-effect type system over peg.peg (builder summaries obtained by evaluating each Add* method's source on a marked tree; least-fixpoint typing of the grammar), escape-table decoding, exhaustive evaluation of the octal decoder over its capture patterns, grammar-graph reachability rules for quoting, classes, precedence and operator routing, evaluation of Compile's import pass and the template's formatImport literal on builder-made import lists, shape rule for the brace-balanced action text",
+         "Decides structural conditions on the self-hosted grammar and its builder: every rule has one net stack effect and never underflows (so every primary pushes exactly one node for every grammar text), escapes denote the documented code points, quoting/class forms reach the right builders, operator punctuation routes to its builder, precedence is stratified, both comment/arrow spellings exist, imports are printed once each with exactly their alias and path, action text is brace-balanced, the start rule demands end of input. Partial: that each construct behaves as documented once built is C01's subject; whitespace spellings are not enumerated.",
          "DESIGN.md §4 C10",
          "Trusts pegreader.go (written from the documentation), the interpreter for builder summaries, C04 (actions replay in derivation order)."),
 }
